@@ -375,8 +375,26 @@ func (e *exec) afterRoot(idx int, root common.Hash, commit bool) {
 		cs := contentString(e.content)
 		obs := vh.Hex(root[:])
 		cas := fmt.Sprintf("op#%d of %s (sha %s) content %s", idx, clipStr(e.prefix(idx), 1500), sha16(e.prefix(idx)), cs)
-		e.h.ask("mptroot "+cs, func(m string) { e.h.corr("Trie.Hash~mpt_root(spec)", cas, obs, m) })
+		rpl := e.replayObj(idx, map[string]interface{}{"content": cs, "go_root": obs})
+		e.h.ask("mptroot "+cs, func(m string) {
+			e.h.corr("Trie.Hash~mpt_root(spec)", cas, obs, m)
+			specRootOracle(c, "Trie.Hash/Commit", cs, obs, m, rpl)
+		})
 	}
+}
+
+// specRootOracle: mpt_root is the SPECIFICATION root (Coq: order independent, equal to the
+// hash of the canonical trie); a root of the implementation that differs from it on a concrete
+// content is a violation of the property itself, reported with the content as replay.
+func specRootOracle(c *vh.Ctx, what, content, goRoot, specRoot string, replay map[string]interface{}) {
+	if !strings.HasPrefix(specRoot, "0x") || len(specRoot) != 66 || goRoot == specRoot {
+		return // model errors are correspondence problems, not findings
+	}
+	if replay == nil {
+		replay = map[string]interface{}{"content": content, "go_root": goRoot}
+	}
+	replay["spec_root"] = specRoot
+	c.Violate("root-differs-from-spec-root/"+sha16(content), what+": the root differs from the specification's Merkle-Patricia root of the content", replay)
 }
 
 func (e *exec) step(tok string) {
@@ -1390,7 +1408,172 @@ func (h *H) deriveSha(n int) {
 		c.Violate("root-differs-from-sorted-rebuild/"+sha16(cs), "DeriveSha differs from a trie over (rlp(i), item i)", map[string]string{"content": cs, "root": vh.Hex(root[:]), "rebuild_root": vh.Hex(rb[:])})
 	}
 	obs := vh.Hex(root[:])
-	h.ask("mptroot "+cs, func(m string) { h.corr("DeriveSha~mpt_root", clipStr(cs, 1500), obs, m) })
+	h.ask("mptroot "+cs, func(m string) {
+		h.corr("DeriveSha~mpt_root", clipStr(cs, 1500), obs, m)
+		specRootOracle(c, fmt.Sprintf("DeriveSha(N=%d)", n), cs, obs, m, map[string]interface{}{"content": clipStr(cs, 200000), "go_root": obs, "n": n})
+	})
+}
+
+// ---------------------------------------------------------------- reference node sizes (boundary coverage)
+
+type refKV struct {
+	key []byte // nibbles, terminated by 16
+	val []byte
+}
+
+// refEncode builds the node encoding of a content straight from the Yellow Paper definition
+// (used only to classify which node sizes a directed content produces, and as a third opinion on
+// the root); record is called for every non-root node with its kind and encoded length.
+func refEncode(items []refKV, root bool, record func(kind string, n int)) []byte {
+	ref := func(enc []byte) interface{} {
+		if len(enc) < 32 {
+			return rlp.RawValue(enc)
+		}
+		return crypto.Keccak256(enc)
+	}
+	var enc []byte
+	kind := ""
+	if len(items) == 1 {
+		kind = "leaf"
+		enc, _ = rlp.EncodeToBytes([]interface{}{trie.VerifHexToCompact(items[0].key), items[0].val})
+	} else {
+		l := 0
+		for {
+			ok := l < len(items[0].key)
+			for _, it := range items {
+				if l >= len(it.key) || it.key[l] != items[0].key[l] {
+					ok = false
+				}
+			}
+			if !ok {
+				break
+			}
+			l++
+		}
+		if l > 0 {
+			kind = "ext"
+			sub := make([]refKV, len(items))
+			for i, it := range items {
+				sub[i] = refKV{it.key[l:], it.val}
+			}
+			enc, _ = rlp.EncodeToBytes([]interface{}{trie.VerifHexToCompact(items[0].key[:l]), ref(refEncode(sub, false, record))})
+		} else {
+			kind = "branch"
+			elems := make([]interface{}, 17)
+			for i := 0; i < 16; i++ {
+				var sub []refKV
+				for _, it := range items {
+					if it.key[0] == byte(i) {
+						sub = append(sub, refKV{it.key[1:], it.val})
+					}
+				}
+				if len(sub) == 0 {
+					elems[i] = []byte{}
+				} else {
+					elems[i] = ref(refEncode(sub, false, record))
+				}
+			}
+			elems[16] = []byte{}
+			for _, it := range items {
+				if len(it.key) == 1 && it.key[0] == 16 {
+					elems[16] = it.val
+				}
+			}
+			enc, _ = rlp.EncodeToBytes(elems)
+		}
+	}
+	if !root && record != nil {
+		record(kind, len(enc))
+	}
+	return enc
+}
+
+func refItems(content map[string][]byte) []refKV {
+	var items []refKV
+	for _, k := range sortedKeys(content) {
+		items = append(items, refKV{trie.VerifKeybytesToHex([]byte(k)), content[k]})
+	}
+	return items
+}
+
+// boundaryCases: directed contents (every run, every seed) whose non-root leaf, extension and
+// branch nodes have RLP encodings of exactly 31, 32 and 33 bytes: the inline-or-hash boundary.
+func (h *H) boundaryCases() {
+	c := h.c
+	hit := map[string]int{}
+	val := func(n int, b byte) []byte { return bytes.Repeat([]byte{b}, n) }
+	run := func(class string, kvs [][2][]byte) {
+		content := map[string][]byte{}
+		for _, kv := range kvs {
+			content[string(kv[0])] = kv[1]
+		}
+		interesting := false
+		refEncode(refItems(content), true, func(kind string, n int) {
+			if n >= 31 && n <= 33 {
+				hit[fmt.Sprintf("%s=%d", kind, n)]++
+				interesting = true
+			}
+		})
+		if !interesting {
+			return
+		}
+		e := h.newExec(class)
+		e.shouldFlush = func(int) bool { return false }
+		e.alterProof = func() bool { return false }
+		e.askSpec = func() bool { return true }
+		var toks []string
+		for _, kv := range kvs {
+			toks = append(toks, "u:"+vh.Hex(kv[0])+":"+vh.Hex(kv[1]))
+		}
+		toks = append(toks, "h", "c", "r:latest", "i", "p:"+vh.Hex(kvs[0][0]), "h")
+		for i, t := range toks {
+			if t == "r:latest" {
+				if len(e.commitRoots) == 0 {
+					continue
+				}
+				r := e.commitRoots[len(e.commitRoots)-1]
+				t = "r:" + vh.Hex(r[:])
+			}
+			if i == len(toks)-1 {
+				e.final = true
+			}
+			e.step(t)
+		}
+		e.nontrivial = true
+		e.finish(opNames)
+	}
+	k1, k2, k3 := []byte{0x12, 0x34}, []byte{0x12, 0x56}, []byte{0x20}
+	// leaves and the branch below the root extension
+	for l1 := 1; l1 <= 34; l1++ {
+		for _, l2 := range []int{1, 2, 9, 10, 11, 29} {
+			run("directed/boundary/leaf+branch", [][2][]byte{{k1, val(l1, 0x11)}, {k2, val(l2, 0x91)}})
+		}
+	}
+	// an extension in child position (below a root branch) over an embedded branch
+	for l1 := 1; l1 <= 14; l1++ {
+		for l2 := 1; l2 <= 14; l2++ {
+			run("directed/boundary/ext", [][2][]byte{{k1, val(l1, 0x11)}, {k2, val(l2, 0x91)}, {k3, val(1, 0x07)}})
+		}
+	}
+	// longer shared paths: extension key of 3 nibbles, branch with a value slot
+	for l1 := 1; l1 <= 14; l1++ {
+		for l2 := 1; l2 <= 14; l2++ {
+			run("directed/boundary/ext3+value", [][2][]byte{{[]byte{0x12, 0x34, 0x56}, val(l1, 0x11)}, {[]byte{0x12, 0x34, 0x78}, val(l2, 0x91)}, {[]byte{0x12, 0x34}, val(2, 0x05)}, {k3, val(1, 0x07)}})
+		}
+	}
+	var missing []string
+	for _, kind := range []string{"leaf", "ext", "branch"} {
+		for n := 31; n <= 33; n++ {
+			key := fmt.Sprintf("%s=%d", kind, n)
+			c.Res.Distribution["boundary-node/"+key] += hit[key]
+			if hit[key] == 0 {
+				missing = append(missing, key)
+			}
+		}
+	}
+	if len(missing) > 0 {
+		c.Fatal("the directed boundary contents no longer produce non-root nodes of these kinds/sizes: %v", missing)
+	}
 }
 
 // ---------------------------------------------------------------- replay
@@ -1529,6 +1712,9 @@ func main() {
 		e.finish(opNames)
 	}
 
+	// 0b. directed contents on the 31/32/33-byte inline-or-hash boundary
+	h.boundaryCases()
+
 	// 7. Keccak validation
 	for i, n := range []int{0, 1, 31, 32, 33, 55, 135, 136, 137, 272, 300, 532} {
 		b := c.Rng.Bytes(n)
@@ -1549,9 +1735,10 @@ func main() {
 	for i := 0; i < c.Scale(4, 60); i++ {
 		h.secureHistory()
 	}
-	dn := []int{0, 1, 2, 17, 130}
+	// directed list lengths around the one- and two-byte rlp(index) key boundaries, every run
+	dn := []int{0, 1, 2, 17, 126, 127, 128, 129, 130, 255, 256, 257, 1000}
 	if c.Thorough() {
-		dn = []int{0, 1, 2, 17, 128, 130, 3, 16, 127, 129, 200, 257}
+		dn = append(dn, 3, 16, 200, 511, 512, 513, 2000)
 	}
 	for _, n := range dn {
 		h.deriveSha(n)
